@@ -36,14 +36,17 @@ BACK_CLASSES = ["default", "default", "int64", "narrow", "mapping"]
 
 HUGE_CORNERS = [{"ndim": 1, "dist": "verysparse", "mapping": "none", "common": "omitted"},
                 {"ndim": 2, "dist": "verysparse", "mapping": "none", "common": "omitted"},
-                {"ndim": 1, "dist": "skew", "mapping": "shift", "common": "frequent"}]
+                {"ndim": 1, "dist": "skew", "mapping": "shift", "common": "frequent"},
+                # more than 2^22 cells with only three distinct values, two of them rare (counts left to the library)
+                {"ndim": 1, "dist": "verysparse", "mapping": "none", "common": "omitted", "few": True, "n": 2 ** 22 + 5, "counts": False},
+                {"ndim": 2, "dist": "verysparse", "mapping": "none", "common": "omitted", "few": True, "cols": 4, "counts": False}]
 
 
 def shards(tier):
     if tier == "quick":
         return [{"label": "mix%d" % i, "kind": "mix", "n": 9000, "crash_is_violation": True} for i in range(13)] + \
                [{"label": "rowscan", "kind": "rowscan", "n": 1000, "crash_is_violation": True},
-                {"label": "huge", "kind": "huge", "n": 5, "crash_is_violation": True, "mem_gib": 12},
+                {"label": "huge", "kind": "huge", "n": 6, "crash_is_violation": True, "mem_gib": 12},
                 {"label": "wide", "kind": "wide", "n": 12, "crash_is_violation": True, "mem_gib": 12}]
     out = [{"label": "mix%d" % i, "kind": "mix", "n": 70000, "crash_is_violation": True} for i in range(13)]
     out += [{"label": "rowscan%d" % i, "kind": "rowscan", "n": 8000, "crash_is_violation": True} for i in range(3)]
@@ -110,10 +113,14 @@ def make_case(rng, kind, force=None):
         dist = gen.pick(rng, ["verysparse", "sparse", "sparse", "skew"])
     ndim = force.get("ndim", ndim)
     dist = force.get("dist", dist)
+    n = force.get("n", n)
+    if force.get("few"):
+        vals = vals[:3]
     if kind == "wide" and acls == "small":
         ndim = 2
     if ndim == 2:
         cols = gen.pick(rng, [1, 2, 3, 5] if n <= 1000 else [2])
+        cols = force.get("cols", cols)
         if kind == "wide" and acls == "small":
             cols = int(gen.pick(rng, [256, 257, 300]))
         shape = (n, cols)
@@ -142,6 +149,16 @@ def make_case(rng, kind, force=None):
         for pos in (-1, -2, 2 ** 20 * (1 if ndim == 1 else shape[1]) + 3):
             if -len(flat) <= pos < len(flat):
                 flat[pos] = gen.pick(rng, rare)
+    if force.get("few") and len(flat) > 100:
+        # one value almost everywhere, a second one in a thousand cells, a third one in just three cells (flat positions
+        # that are not multiples of 16 / not in the first column): whatever the library estimates from a sample or a
+        # prefix of the data, the third value has to come back
+        flat[:] = vals[0]
+        flat[rng.choice(len(flat), size=1000, replace=False)] = vals[1]
+        for pos in (len(flat) - 1, len(flat) - 2, len(flat) // 2 + 3):
+            while pos % 16 == 0 or (ndim == 2 and pos % shape[1] == 0):
+                pos -= 1
+            flat[pos] = vals[2]
     lo, hi = (min(vals), max(vals))
     dts = gen.storage_dtypes(lo, hi)
     dt = gen.pick(rng, dts) if dts else numpy.dtype(object)
@@ -214,7 +231,7 @@ def make_case(rng, kind, force=None):
     if n == 0 and common is None and mapping is None:
         # refused by contract: give it a common value
         common, ccls = int(vals[0]), "absent"
-    counts = rng.random() < 0.4
+    counts = force.get("counts", rng.random() < 0.4)
     back = gen.pick(rng, BACK_CLASSES)
     layout = gen.wpick(rng, [("C", 6), ("F", 1), ("strided", 1), ("list", 1)])
     if ndim == 2 and n and rng.random() < 0.02 and common is not None and mapping is None:
